@@ -131,8 +131,10 @@ def content_problems(prog, env, rel):
     # materializing a leaf or an already materialized relation adds no new materialization
     if prog[0] == "mat":
         inner = build(prog[1], env)
-        if isinstance(inner, (LeafRelation, Materialization)) or (hasattr(inner, "skip_to") and isinstance(inner.skip_to, (LeafRelation, Materialization))
-                                                                     and inner.target is inner.skip_to):
+        core = inner
+        while hasattr(core, "skip_to") and core.target is core.skip_to:  # SQL Select wrappers that record no operation
+            core = core.skip_to
+        if isinstance(core, (LeafRelation, Materialization)):
             if count_nodes(rel, Materialization) != count_nodes(inner, Materialization):
                 return "materializing a leaf / materialization added a new Materialization node"
     return None
